@@ -11,6 +11,7 @@
 from __future__ import annotations
 
 import ast
+import re
 
 from .. import core
 from ..pymodel import pmatch, find_match, Alpha
@@ -191,7 +192,9 @@ def check_fixup(report, lib: Lib):
                             ex = [g for g in es.guards[len(seg.guards):] if g[0] != "loop"]
                             r3.check(not ex, *where(sk, e, lib.root), f"field guarded by {ex}", "every request field must be listed")
                             lp = [g for g in es.guards if g[0] == "loop" and g[1].endswith(".legacy_flattened_fields")]
-                            r3.check(len(lp) == 1 and lp[0][3].endswith((".legacy_flattened_fields.values()", ".legacy_flattened_fields", ".legacy_flattened_fields.keys()")), *where(sk, e, lib.root),
+                            # (an order-preserving projection `|map(attribute='name')` of the values is the same sequence)
+                            r3.check(len(lp) == 1 and re.sub(r"\|map\(attribute='name'\)(\|list\(\))?$", "", lp[0][3]).endswith(
+                                (".legacy_flattened_fields.values()", ".legacy_flattened_fields", ".legacy_flattened_fields.keys()")), *where(sk, e, lib.root),
                                      f"iterated as {lp[0][3] if lp else None}", "fields must keep the order of legacy_flattened_fields")
     r3.need(seen >= 1, "METHOD_TO_PARAMS entries")
     # the collection of methods: all services x all methods
